@@ -509,12 +509,11 @@ pub fn run_resp(case: &RespCase) -> CaseOut {
     let longest_list = sets
         .iter()
         .map(|s| {
-            7 + 2
-                * defined
-                    .keys()
-                    .chain(unencodable.iter())
-                    .filter(|k| k.0 == *s)
-                    .count()
+            7 + 2 * defined
+                .keys()
+                .chain(unencodable.iter())
+                .filter(|k| k.0 == *s)
+                .count()
         })
         .max()
         .unwrap_or(0);
